@@ -21,6 +21,8 @@ def check(index, ctx):
     ctx.rule("R2", "on every returning path the weights are the output of solve_qp (UPGrad: summed over the axis indexing the projected vectors)")
     ctx.rule("R3", "the configured preference vector / the input is what every call sees: nothing on a path of UPGrad/DualProj writes in place into a value that may share memory "
              "with a constructor argument or with the matrix (so the second call solves the same QP as the first)")
+    ctx.rule("R4", "scale safety: no product or power on a returning path of UPGrad/DualProj has a result that scales like the input to a power > 1 — the Gramian handed to the QP is assembled "
+             "from factors already divided by the largest singular value (J·Jᵀ formed first overflows for finite inputs of large magnitude, whatever it is divided by afterwards)")
     names = _agg.classes_named(index, ["UPGrad", "DualProj"], ctx, "R1")
     W_UP = _agg.weighting_of(index, "UPGrad")
     n = 0
@@ -36,6 +38,10 @@ def check(index, ctx):
                     ctx.undecided("R1", pk, "path not fully typed: " + "; ".join(f"{e['loc']} {e.get('why', '')}" for e in unk[:3]), cls.loc())
                     continue
                 ev = r.events
+                high = [e for e in ev if e["kind"] == "deg_high" and "matrix" in e.get("origin", [])]
+                ctx.require(not high, "R4", pk if not high else f"{name}: {high[0]['function'].split('.')[-1]}: `{high[0]['text'][:60]}`", "every intermediate scales at most linearly with the input",
+                            (f"`{high[0]['text'][:80]}` scales like the input to the power {high[0]['deg']}: for finite inputs of magnitude ~1e20 (float32) it overflows before the normalisation, "
+                             "so the projection is computed from inf/nan") if high else "", high[0]["loc"] if high else cls.loc())
                 for e in ev:
                     if e["kind"] == "inplace" and e.get("alias"):
                         ctx.violated("R3", f"{name}: {e['function'].split('.')[-1]}: {e['text']}",
